@@ -547,6 +547,10 @@ func (h *Session) Ping6(srcAddr Addr, dstAddr Addr, timeout time.Duration) (err 
 	icmpTable.Unlock()
 
 	if err = h.ICMP6SendEchoRequest(srcAddr, dstAddr, id, seq); err != nil {
+		// the request was not sent: nobody will answer, unregister the waiter
+		icmpTable.Lock()
+		delete(icmpTable.table, id)
+		icmpTable.Unlock()
 		return err
 	}
 
@@ -586,6 +590,10 @@ func (h *Session) ping(srcAddr Addr, dstAddr Addr, timeout time.Duration) (err e
 	icmpTable.Unlock()
 
 	if err = h.ICMP4SendEchoRequest(srcAddr, dstAddr, id, seq); err != nil {
+		// the request was not sent: nobody will answer, unregister the waiter
+		icmpTable.Lock()
+		delete(icmpTable.table, id)
+		icmpTable.Unlock()
 		return err
 	}
 
